@@ -278,6 +278,13 @@ async def play(case: dict) -> dict:  # noqa: C901
             out[endkey] = f"data:{len(extra)}"
         except Exception as e:  # noqa: BLE001
             out[endkey] = exc_name(e)
+            if out[endkey] in ("eos", "broken"):
+                # the end of the stream is reported the same way every time it is asked for
+                try:
+                    extra = await stream.receive(100)
+                    out[endkey + "_again"] = f"data:{len(extra)}"
+                except Exception as e2:  # noqa: BLE001
+                    out[endkey + "_again"] = exc_name(e2)
 
     if case["close"]:
         async def client_close() -> None:
@@ -371,6 +378,10 @@ def oracle(case: dict, out: dict) -> str | None:  # noqa: C901
     if not out.get("dropped"):
         return None  # the byte stream ended before the truncation point: nothing was cut off
     victim_sc = case["scS"] if cut[0] == "c2s" else case["scC"]
+    for k in ("endS", "endC"):
+        if out.get(k + "_again") not in (None, out.get(k), "closed"):
+            return (f"transport truncated after {cut[1]} bytes ({cut[0]}): the end was first reported as "
+                    f"{out.get(k)!r}, a second receive() reported {out.get(k + '_again')!r}")
     hs, end = (out["hsS"], out["endS"]) if cut[0] == "c2s" else (out["hsC"], out["endC"])
     term = hs if hs != "ret" else end
     if case["close"] and term == "-" and hs == "ret":
